@@ -16,7 +16,8 @@ CASE_TIMEOUT = 1200
 RULE = ("kind random: zoo crystal x supercell (with q=-q+G points only, and with conjugate pairs) x primitive matrix x quantum|classical x T in {0, 10, 300, 2000} x cutoff: "
         "covariance A A^T of the sampler (one-hot variates) vs canonical covariance; uu equals it, uu.uu_inv is the projector on the included modes, run_d2f returns the original constants; "
         "kind msd: mean-square displacement matrices on full meshes vs the harness' mode sum, symmetric PSD, Cartesian diagonal = ThermalDisplacements, CIF transform, frequency windows, projection directions; "
-        "non-trivial = supercell with >= 2 atoms and at least 4 included modes; distinct = parameter tuple")
+        "non-trivial = supercell with >= 2 atoms and at least 4 included modes; distinct = parameter tuple; "
+        "additions of rounds 6-8: rebuilt force constants re-read after later requests; interleaved centred cells")
 ASSUMPTIONS = [
     "canonical covariance from numpy.linalg.eigh of M^-1/2 Phi M^-1/2 with phonopy.units constants",
     "imaginary / below-cutoff modes are excluded on both sides (the harness applies the same frequency cutoff rule to its own spectrum)",
